@@ -659,7 +659,7 @@ def work(item):
             if not src or 'today()' not in src and 'now()' not in src:
                 if name not in ('stdnum.be.bis', 'stdnum.be.ssn'):
                     continue
-            sv = seedmod.seeds(name, 2)
+            sv = seedmod.seeds(name, 6)
             vals = [v for s, v in sv]
             try:
                 from .. import e2
